@@ -148,13 +148,29 @@ def histStep (enc : Enc) (fields : List Field) (sel : Option (Option (List Name)
     let recs ← (← getArr op "recs").mapM (fun rj => do (← rj.getArr?).toList.mapM ofVal)
     -- the effect-level model: one `encodeRec` per record, effects run from the state without temp file
     let q : WReqE := { append := ← getBool op "append", gzip := ← getBool op "gzip", recs := recs.map (encodeRec enc fields) }
-    let (es, err) := effects r q
-    let st := runEffs MID ⟨r, none⟩ es
-    let during := ("during", jList (jDuring r) (duringStates MID r q))
-    let left := ("tmp_left", Json.bool st.tmp.isSome)
+    -- small requests run the effect list itself; large ones (relations of 100 KiB and more) are answered from
+    -- the digest that `effects_digest` / `during_digest` prove equal to it (running 2600 prefixes is cubic)
+    let small := recs.length ≤ 64
+    let (rel', err, tmpLeft) :=
+      if small then
+        let (es, err) := effects r q
+        let st := runEffs MID ⟨r, none⟩ es
+        (st.rel, err, st.tmp.isSome)
+      else
+        let (r', err) := writeDigest MID r q
+        (r', err, false)
+    let duringJ :=
+      if small then jList (jDuring r) (duringStates MID r q)
+      else
+        -- `during_digest`: every pull sees the relation files of before the call and the temp file
+        let one := Json.mkObj [("tx", Json.bool r.tx.isSome), ("gz", Json.bool r.gz.isSome),
+                               ("tmp", jNat 1), ("same", Json.bool true)]
+        Json.arr (List.replicate (pullCount r q) one).toArray
+    let during := ("during", duringJ)
+    let left := ("tmp_left", Json.bool tmpLeft)
     match err with
-    | none => pure (st.rel, Json.mkObj ([("res", Json.str "ok")] ++ obsRel (some fields) st.rel sel ++ [during, left]))
-    | some e => pure (st.rel, Json.mkObj ([("res", Json.str (errTag e))] ++ obsRel (some fields) st.rel sel ++ [during, left]))
+    | none => pure (rel', Json.mkObj ([("res", Json.str "ok")] ++ obsRel (some fields) rel' sel ++ [during, left]))
+    | some e => pure (rel', Json.mkObj ([("res", Json.str (errTag e))] ++ obsRel (some fields) rel' sel ++ [during, left]))
   | "plant" =>
     let gz ← getBool op "gz"
     let lines := plantLines (← ofRawRecs op "recs")
@@ -254,8 +270,10 @@ def handle (j : Json) : Except String Json := do
     let q : DbReq := { srcSchema := srcSchema, autocast := autocast, inPlace := inPlace, names := names,
                        schema := schema, gzip := ← getBool j "gzip" }
     let enc ← ofEnc j "enc"
-    let (dd, e) := writeDbDirE enc MID q tss src { files := dst }
-    let d := dd.files
+    -- the final `_cleanup_files` runs on file NAMES (`writeDbFiles`; equal to `writeDbE` for dot-free names by
+    -- `writeDbFiles_eq`, HistProps.lean)
+    let (d, e) := writeDbFiles enc MID q src dst
+    let dd : DbDir := { relations := some (writeSchema tss), files := d }
     let back := reopenSchema dd
     let sels ← match j.getObjVal? "sel" with
       | .ok v => (← v.getArr?).toList.mapM ofSel
